@@ -295,6 +295,7 @@ impl System for SignSys {
     fn initial(&self) -> SignState {
         let mut model = RefSign::new(OWN, self.automatic);
         model.track_stream = self.oracle == Oracle::LockStep && self.alpha.track_stream;
+        model.bounds_only = self.oracle != Oracle::LockStep;
         SignState { real: VirtualSign::new(Address(OWN), flip(self.automatic)), model }
     }
     fn n_actions(&self) -> usize {
@@ -341,6 +342,7 @@ impl System for SignSys {
                 match open {
                     Open::ReceivedOrFailed => tags |= T_OPEN1,
                     Open::MayFlushWhileIdle => tags |= T_OPEN2,
+                    Open::ConfigReceivedOrFailed => {}
                     Open::No => {}
                 }
                 if let Message::RequestOperation(ad, op) = m {
@@ -389,14 +391,15 @@ impl System for SignSys {
                         if real.state() != model.state {
                             viol.push(("state".into(), format!("{}-in-{:?}", kind, before), format!("{}: now in {:?}, the documented machine is in {:?}", ctx(), real.state(), model.state)));
                         }
-                        if model.cfg_open && real.sign_type().is_none() && real.sign_type() != model.typ {
-                            // the implementation forgot what the failed attempt told it: allowed, continue from that
-                            model.typ = None;
+                        if model.cfg_open && real.sign_type() != model.typ && (real.sign_type().is_none() || real.sign_type() == model.prev_typ) {
+                            // the implementation forgot what the failed attempt told it, or refused a zero-sized block
+                            // and kept what it knew before: allowed, continue from that
+                            model.typ = real.sign_type();
                         }
                         if real.sign_type() != model.typ {
                             viol.push(("sign-type".into(), format!("{}-in-{:?}", kind, before), format!("{}: sign_type {:?}, expected {:?}", ctx(), real.sign_type(), model.typ)));
                         }
-                        let sizes_ok = real.pages().iter().all(|p| (p.width(), p.height()) == (model.w, model.h));
+                        let sizes_ok = model.cfg_open || real.pages().iter().all(|p| (p.width(), p.height()) == (model.w, model.h));
                         if let PagesRule::AdoptFromStream(stream) = &pages_rule {
                             let held: Vec<Vec<u8>> = real.pages().iter().map(|p| p.as_bytes().to_vec()).collect();
                             if real.state() == State::PixelsReceived && sizes_ok && !crate::refsign::pieces_of_stream(&held, stream) {
@@ -408,7 +411,7 @@ impl System for SignSys {
                             }
                         }
                         if matches!(pages_rule, PagesRule::Adopt | PagesRule::AdoptFromStream(_)) && sizes_ok {
-                            model.adopt_pages(real.pages().iter().map(|p| p.as_bytes().to_vec()).collect());
+                            model.adopt_pages(real.pages().iter().map(|p| p.as_bytes().to_vec()).collect(), real.pages().iter().map(|p| (p.width(), p.height())).collect());
                         }
                         if pages_rule == PagesRule::Exact && !pages_equal(&real, &model) {
                             viol.push((
@@ -418,6 +421,9 @@ impl System for SignSys {
                             ));
                         }
                         for p in real.pages() {
+                            if model.cfg_open {
+                                break; // the size the sign goes by is open (don't-care 4)
+                            }
                             if (p.width(), p.height()) != (model.w, model.h) || p.as_bytes().len() as u64 != padded(p.width() as u64, p.height() as u64) {
                                 viol.push(("page-size-invariant".into(), format!("{}-in-{:?}", kind, before), format!("{}: stored page {}x{} ({} bytes) on a sign configured {}x{}", ctx(), p.width(), p.height(), p.as_bytes().len(), model.w, model.h)));
                                 break;
